@@ -7,7 +7,7 @@
    object level, in C14's LexProofs / LitStringProofs / RealProofs / ObjectRtProofs). *)
 From LV Require Import Base.Bytes Base.Sx Model.Obj Model.Writer Model.Parser Model.Save Model.Xref Model.Loader
   Model.Utf Gen.Lex Proofs.LexProofs Proofs.ObjectRtProofs Proofs.SaveProofs Spec.SaveSpec Proofs.LoadProofs
-  Proofs.LoadProofsFile.
+  Proofs.LoadProofsFile Proofs.LoadProofsXref.
 
 Local Open Scope N_scope.
 
@@ -155,12 +155,28 @@ Theorem C01_startxref_roundtrip :
     get_xref_start (front ++ startxref_bytes n) = Some n.
 Proof. exact get_xref_start_rt. Qed.
 
+(* (10) The trailer written by write_trailer is read back by parser::trailer to its normal form, and
+   (11) the cross-reference table: a map with increasing object numbers below Size and in-range Normal
+   entries (what save builds, see C01_offsets_sound / C01_offsets_complete), printed by write_xref, is parsed back by the table parser
+   (sub-section by sub-section, entry by entry) to exactly that map: the entries parse back to the
+   offsets.  Together with (8): every object is reachable through the table at its own offset. *)
+Theorem C01_trailer_roundtrip :
+  forall t rest, obj_wf (ODict t) -> (nest (ODict t) <= MAX_DEPTH)%nat ->
+    Xref.trailer (trailer_bytes t ++ rest) = POk (norm_dict t) (space rest).
+Proof. exact trailer_rt. Qed.
+
+Theorem C01_xref_table_roundtrip :
+  forall (x : Save.xmap) size more,
+    1 <= size -> size < two32 -> incr 1 x -> Forall (fun ke => fst ke < size) x -> Forall normal_ok x ->
+    xref_table (write_xref x size ++ bs "trailer" ++ more) =
+    POk {| x_type := XTTable; x_entries := conv_map x; x_size := 0 |} (bs "trailer" ++ more).
+Proof. exact xref_table_roundtrip. Qed.
+
 (* The whole-file statement (DESIGN: C01_roundtrip and C01_again), for both formats.  NOT PROVED.
-   Proved pieces: (1)-(9).  Missing: (a) the cross-reference table printed by write_xref is parsed
-   back by Xref.xref_table to the writer's map (and the same for the cross-reference stream through
-   decode_xref_plain); (b) the trailer dictionary round trip at file level (an instance of C14's
-   dictionary_entry_rt); (c) the composition: read_entries over the parsed map with (8), the size
-   correction, and the second cycle. *)
+   Proved pieces: (1)-(11).  Missing: (a) the cross-reference STREAM content written by
+   xstream_content read back through Xref.decode_xref_plain (the table format has (11)); (b) the
+   composition into load: read_entries over the parsed map with (8), the Prev / size-correction /
+   Encrypt steps on the normalised trailer, and the second cycle (savable (reloaded d)). *)
 Definition bookkeeping : list bytes :=
   [K_Type; Save.K_Size; Save.K_W; Save.K_Index; K_Length; Save.K_Prev; K_Filter].
 Definition is_xref_stream (o : obj) : bool :=
@@ -204,4 +220,6 @@ Print Assumptions C01_object_at_offset_partial.
 Print Assumptions C01_header_roundtrip.
 Print Assumptions C01_binary_mark_roundtrip.
 Print Assumptions C01_startxref_roundtrip.
+Print Assumptions C01_trailer_roundtrip.
+Print Assumptions C01_xref_table_roundtrip.
 Print Assumptions C01_known_class_witness.
